@@ -548,7 +548,10 @@ class LRUCache(CacheBase):
     def set_max_size(self, max_size: int) -> None:
         if max_size < 1:
             max_size = 1
-        self.max_size = max_size
+        # Take the lock so that the limit cannot change in the middle of
+        # another thread's eviction loop in put().
+        with self.lock:
+            self.max_size = max_size
 
     def get(self, key: CacheKey) -> Answer | None:
         """Get the answer associated with *key*.
